@@ -366,6 +366,32 @@ int main(int argc, char **argv)
           run_case(f, w, h, k, t, pl, r, file);
         }
   });
+  // wide / tall images: row buffers, strides and any size dependent blocking (a few patterns each)
+  {
+    static const int WIDE[] = {5, 17, 255, 256, 257, 1023, 1024, 1025, 2047, 2049, 4097};
+    const int nw = (int)(sizeof WIDE / sizeof WIDE[0]);
+    const int nwide = NFMT * nw;
+    vr::run_sharded(nwide, [&](int shard, long long resume_after) {
+      int f = shard / nw, big = WIDE[shard % nw];
+      std::string file = g_dir + "/wide-" + std::to_string(shard);
+      long long idx = -1;
+      for (int orient = 0; orient < 2; orient++)
+        for (int small = 1; small <= (vr::thorough() ? 3 : 2); small++)
+          for (int t = 0; t < 256; t += (vr::thorough() ? 51 : 85))
+            for (int pl = 0; pl < 2; pl++) {
+              idx++;
+              if (idx <= resume_after)
+                continue;
+              if (orient == 1 && big > 1025)
+                continue;  // very tall images add nothing over tall ones
+              int w = orient == 0 ? big : small, h = orient == 0 ? small : big;
+              std::string r = replay_text(f, w, h, 37, t, pl);
+              vr::begin_case(idx, std::string(FORMATS[f].name) + "|harness decoder|large image", r);
+              run_case(f, w, h, 37, t, pl, r, file);
+            }
+    });
+    vr::sample("wide and tall images: one side in {5,17,255,256,257,1023,1024,1025,2047,2049,4097}, the other in 1..2 (thorough 1..3), every writer, both buffer placements", "wide");
+  }
   c20::rm_dir(g_dir);
   return vr::finish();
 }
